@@ -35,7 +35,22 @@ def run(ctx):
             ("bigwrite", C(nc=2, ns=1, units=4, maxwrite=4, feat='"swrite"'), 40, 0, n(150, 2000), 2, {}),
             ("addconn", C(nc=2, ns=1, units=2, maxwrite=1, late="2", feat='"swrite","gates"'), 30, 0, n(200, 2000), 2,
              {"gates": True, "late": 1})]
-    return muxprop.run_property(ctx, LEVEL, ASSUME, KEYS, mcs, gens, RULE)
+    return muxprop.run_property(ctx, LEVEL, ASSUME, KEYS, mcs, gens, RULE, extra=addconn_race)
+
+
+def addconn_race(ctx):
+    """Two overlapping AddConnection calls: model (ideal passes, deviation AddConnNoMutex refuted) + real-goroutine gate run."""
+    C = mx.cfg
+    two = C(nc=3, ns=1, units=1, maxwrite=1, late="2,3", feat='"gates"', extrainv="StaysUp")
+    mx.model_check(ctx, "addconn2", two)
+    neg = lib.run_tlc(ctx, "Mux", "Mux_data.cfg", dict(two, DEV='"AddConnNoMutex"'), tag="mc_addconn2_nomutex", expect_violation=True)
+    if neg.ok:
+        raise lib.Inconclusive("Mux: unserialised adders no longer break StaysUp in the model (vacuity)")
+    res = lib.run_go(ctx, "multiplex", "TestVerifC01AddConnRace", timeout=600)
+    lib.collect_go(ctx, res)
+    ctx.log("addconn race: %d rounds, %d violations" % (res["evaluations"], len(res.get("violations", []))))
+    return {"evaluations": res["evaluations"], "distinct_nontrivial": res["distinct_nontrivial"], "samples": res["samples"][:1],
+            "traces": res["evaluations"], "addconn_race_stats": res["stats"]}
 
 
 replay = muxprop.replay_file
